@@ -106,9 +106,44 @@ def run(tier):
     sm3 = [c for c in cmds if c["sc"] not in gcm_sc]
     chk.exec_and_validate("T_GCM", gcm, keyfn, cost=cost, accel=True, pure_budget=6000000, tag="gcm")
     chk.exec_and_validate("T_SM3", sm3, keyfn, tag="sm3")
+    # SM2 entry points: key, digest, id, message, signature and public-key slices byte-identical after
+    # every call (T_SM2 compares the ins_after / priv_after snapshots), each call made twice
+    from .. import sm2gen, ecpy as ec
+    from ..sm2gen import Gen, b32, rscalar
+    g = Gen(chk.rng)
+    for _ in range(4 if tier == "quick" else 40):
+        d = rscalar(chk.rng)
+        pt = ec.mul(d)
+        px, py = b32(pt[0]), b32(pt[1])
+        for kind in ("hashed", "za", "id"):
+            kw = dict(kind=kind, priv=b32(d), script=sm2gen.script_of([rscalar(chk.rng)]))
+            vw = dict(kind=kind, pubx=px, puby=py, r=b32(rscalar(chk.rng)), s=b32(rscalar(chk.rng)))
+            if kind == "hashed":
+                kw["e"] = vw["e"] = rb(chk.rng, 32)
+            elif kind == "za":
+                kw["za"] = vw["za"] = rb(chk.rng, 32)
+                kw["msg"] = vw["msg"] = rb(chk.rng, 40)
+            else:
+                kw.update(id=rb(chk.rng, 16), pubx=px, puby=py, msg=rb(chk.rng, 40))
+                vw.update(id=kw["id"], msg=kw["msg"])
+            k = g.scenario("sm2_inputs_" + kind)
+            g.add(k, "sm2.sign", **kw)
+            g.add(k, "sm2.sign", **dict(kw, script=sm2gen.script_of([rscalar(chk.rng)])))
+            g.add(k, "sm2.verify", **vw)
+            g.add(k, "sm2.verify", **vw)
+        k = g.scenario("sm2_inputs_keys")
+        g.add(k, "sm2.derivepublic", priv=b32(d))
+        g.add(k, "sm2.testpriv", priv=b32(d))
+        g.add(k, "sm2.za", id=rb(chk.rng, 16), pubx=px, puby=py)
+
+    def sm2key(b):
+        ev = b["ev"]
+        snaps = [("ins_after", None), ("priv_after", "priv")]
+        return "%s.%s" % (ev["op"], b["why"].split(": ")[-1].replace(" ", "_"))
+    chk.exec_and_validate("T_SM2", g.cmds, sm2key, accel=True, families=("bits", "big"), tag="sm2")
     # static complement (B3): in the extracted listing no store targets an input region
     from . import c09
-    found = c09.analyse(chk, tier, ("C10",))
+    found = c09.analyse(chk, tier, ("C10",), light=True)
     c09.report(chk, found, c09.strip_c09)
     return chk.finish(
         "model_checking",
